@@ -193,7 +193,7 @@ PROPS = {
                       "an expired token is never forwarded whichever fault prevents the refresh; a 4xx from the provider makes proxied requests go on without token and forward-auth / manual refresh answer 401; a logout whose lookup or delete failed "
                       "never answers success; without faults the faulty handlers equal the ordinary ones. Retries are modelled as 'fails only if the fault outlasts the budget'; that abstraction is itself proved for the back-off policy (Model/Retry, Proofs/Retry): for EVERY base, budget and fault length, a fault ending within the budget is absorbed by an attempt made within the budget (the last attempt is made exactly when the budget runs out), a longer one ends the call after finitely many strictly increasing attempts; instantiated at the constants and statements regenerated from pkg/retry/retry.go (fresh back-off per call) and tied to the real library by attempt offsets in two waves." + HANDLER_TIE +
                       " Client.RefreshGrant and the back-channel POST are translated on every run (Gen/Provider): a refresh answer is accepted on one path only (authenticated POST of the caller's refresh token to the token endpoint, body parsed, access token present); 4xx is a client error, 5xx a server error, a body is handed on only from a non-error answer.",
-        'level_note': "Trusted: Lean kernel; go-retry's timers and Fibonacci state (modelled in Model/Retry with operations taking no time; tied by the retry driver with a tolerance of +150 ms per attempt); an error from the lock script is not retried (observed, noted in DESIGN); fault = error reply on the replica's connection at a command boundary.",
+        'level_note': "Trusted: Lean kernel; go-retry's timers and Fibonacci state (modelled in Model/Retry with operations taking no time; tied by the retry driver with a tolerance of +400 ms per attempt); an error from the lock script is not retried (observed, noted in DESIGN); fault = error reply on the replica's connection at a command boundary.",
         'technique': 'Lean 4 proof over the handler model with a fault oracle + fault injection at every store/provider position on real replicas',
         'trusted': ["go-retry contract (Appendix C)", "H-CLOCK"],
         'assumptions': ["faults occur at store-command / provider-call boundaries"],
